@@ -164,6 +164,15 @@ def norm(t):
     return tuple(norm(x) if isinstance(x, tuple) else x for x in t)
 
 
+def erase_sites(t):
+    """Drop the call-site identity of every call (structural comparison of two expressions)."""
+    if not isinstance(t, tuple) or not t:
+        return t
+    if t[0] == "call":
+        return ("call", t[1], tuple(erase_sites(a) for a in t[2]), 0, 0)
+    return tuple(erase_sites(x) if isinstance(x, tuple) else x for x in t)
+
+
 def _strip(t):
     while t[0] in ("ref", "deref") or (t[0] == "cast" and INT_TYS.get(t[2], 0) >= INT_TYS.get(t[3], 65)):
         t = t[1]
